@@ -190,6 +190,17 @@ func ReadMesh(in io.Reader) ([]ObjMesh, []string, error) {
 	geoms := make([]ObjMesh, 0)
 	workingGeom := newObjMeshReading()
 
+	// closeMaterialRange records the faces read since the last usemtl in the
+	// working group's current material range. It has to run before the group
+	// is handed to toMesh: from then on the mesh owns the material slice, and
+	// the next group starts counting from zero.
+	closeMaterialRange := func() {
+		if trisSenseLastMat > 0 && len(workingGeom.meshMats) > 0 {
+			workingGeom.meshMats[len(workingGeom.meshMats)-1].PrimitiveCount = trisSenseLastMat
+		}
+		trisSenseLastMat = 0
+	}
+
 	for scanner.Scan() {
 		line := scanner.Text()
 		if strings.TrimSpace(line) == "" {
@@ -270,6 +281,7 @@ func ReadMesh(in io.Reader) ([]ObjMesh, []string, error) {
 			}
 
 			if !workingGeom.empty() {
+				closeMaterialRange()
 				geoms = append(geoms, workingGeom.toMesh())
 				workingGeom = newObjMeshReading()
 			}
@@ -353,12 +365,8 @@ func ReadMesh(in io.Reader) ([]ObjMesh, []string, error) {
 		return nil, nil, fmt.Errorf("failed to run scanner: %w", err)
 	}
 
+	closeMaterialRange()
 	geoms = append(geoms, workingGeom.toMesh())
-	if trisSenseLastMat > 0 {
-		if len(workingGeom.meshMats) > 0 {
-			workingGeom.meshMats[len(workingGeom.meshMats)-1].PrimitiveCount = trisSenseLastMat
-		}
-	}
 
 	return geoms, readMaterialFiles, nil
 }
